@@ -126,6 +126,19 @@ class World(object):
         rnd = random.Random(w["vseed"])
         self.vac = bool(w["vac"])
         self.ce = ce + vce if self.vac else ce
+        if w.get("merge"):
+            # the API asks only that the clusters of one group share a coefficient: a user may put several symmetry
+            # orbits under one value (a constrained fit). Groups are merged pairwise, as plain lists, second first.
+            mrnd = random.Random(w["vseed"] + 17)
+            groups, merged = list(ce), []
+            while groups:
+                a = groups.pop(0)
+                if groups and mrnd.random() < 0.6:
+                    b = groups.pop(mrnd.randrange(len(groups)))
+                    merged.append(list(b) + list(a))
+                else:
+                    merged.append(a)
+            self.ce = merged + (vce if self.vac else [])
         self.evalues = draw_values(rnd, len(self.ce) + 1, w["values"])
         self.ts = (tsv if self.vac else ts) if w["ts"] else []
         self.tsvalues = draw_values(rnd, len(self.ts), w["values"])
@@ -250,6 +263,8 @@ class Run(RunBase):
         self.w = world
         self.W = World(world)
         self.n = self.W.nsites
+        self.released = []                    # occupation arrays of earlier start() calls: the sampler has let go of them
+        self.given_to_jit = []                # arrays handed to the compiled sampler's start(), which copies
         self.own = {}                         # the argument objects the caller handed to the constructor of self.mc
         self.companion = None                 # shared-supercell worlds: the decoy sampler, kept alive and driven too
         if self.W.shared is not None:
@@ -284,6 +299,13 @@ class Run(RunBase):
 
     def fail(self, oracle, detail):
         raise Violation(self.prop, oracle, detail)
+
+    def jit_start(self, a):
+        """start() of the compiled sampler, which documents that it keeps its OWN copy of the occupation: the
+        caller keeps the array it handed over and may recycle it (op recycle)."""
+        ja = np.array(a, dtype=np.int64)
+        self.jit.start(ja)
+        self.given_to_jit = (self.given_to_jit + [ja])[-3:]
 
     def caller_array(self, a, kind):
         """The caller's occupation vector in one of the forms a numpy user would hand over: its own int64/int32/
@@ -413,6 +435,8 @@ class Run(RunBase):
             return {"op": "checkpoint", "how": rng.choice(("pickle", "deepcopy"))}
         if self.companion is not None and rng.random() < 0.08:
             return {"op": "companion", "seed": rng.randrange(1 << 20)}
+        if (self.released or self.given_to_jit) and rng.random() < 0.05:
+            return {"op": "recycle", "seed": rng.randrange(1 << 20)}
         if self.recent_trials and rng.random() < 0.07:
             # perform a move that was announced by a trial some steps ago (other updates may lie in between)
             a, b = rng.choice(self.recent_trials)
@@ -486,6 +510,11 @@ class Run(RunBase):
             return {"op": "jit_create"}
         if self.companion is not None and rng.random() < 0.05:
             return {"op": "companion", "seed": rng.randrange(1 << 20)}
+        if (self.released or self.given_to_jit) and rng.random() < 0.05:
+            return {"op": "recycle", "seed": rng.randrange(1 << 20)}
+        if rng.random() < 0.012:
+            return {"op": "longbatch", "L": rng.choice((32760, 65528, 65528, 131064)) + rng.randrange(0, 12),
+                    "seed": rng.randrange(1 << 20), "fresh": rng.random() < 0.6, "const": rng.random() < 0.6}
         x = rng.random()
         if x < 0.07:
             return self.gen_start(rng)
@@ -539,10 +568,12 @@ class Run(RunBase):
             arr = self.caller_array(a, op.get("arr"))
         if self.started:
             self.faults["restart"] += 1
+            if self.occ is not None and arr is not self.occ:
+                self.released = (self.released + [self.occ])[-3:]
         self.mc.start(arr)
         self.occ, self.mocc, self.started, self.needs_start = arr, list(a), True, False
         if self.jit is not None:
-            self.jit.start(np.array(a, dtype=np.int64))
+            self.jit_start(a)
         return "started"
 
     def op_edit_then_start(self, index, op):
@@ -561,7 +592,7 @@ class Run(RunBase):
         self.mc.start(self.occ)
         self.mocc, self.started, self.needs_start = a, True, False
         if self.jit is not None:
-            self.jit.start(np.array(a, dtype=np.int64))
+            self.jit_start(a)
         return "edited+started"
 
     def op_bad_start(self, index, op):
@@ -670,7 +701,7 @@ class Run(RunBase):
                     a, b, announced, E1 - E0))
         if self.jit is not None:
             # keep the compiled sampler in step (single swaps only reach here in C35 via op_swap)
-            self.jit.start(np.array(self.mocc, dtype=np.int64))
+            self.jit_start(self.mocc)
         return "updated"
 
     def op_transitions(self, index, op):
@@ -686,6 +717,21 @@ class Run(RunBase):
         if len(ij) < len(self.mc.jumps):
             self.probes["forbidden-transition"] += 1
         return "T{}:{}".format(len(ij), ",".join(fhex(q) for q in Q[:6]))
+
+    def op_recycle(self, index, op):
+        """Double buffering: the caller reuses (overwrites) occupation arrays that are no longer in use -- arrays of
+        EARLIER start() calls of the reference sampler (which aliases only the array of its latest start), and any
+        array handed to the compiled sampler (which copies)."""
+        rnd = random.Random(op.get("seed", 0))
+        n = 0
+        for arr in self.released + self.given_to_jit:
+            if arr is self.occ or (self.occ is not None and np.shares_memory(arr, self.occ)):
+                continue
+            arr[...] = [rnd.choice((0, 1)) for _ in range(len(arr))]
+            n += 1
+        if n:
+            self.faults["caller-recycles-released-array"] += 1
+        return "recycled{}".format(n)
 
     def op_companion(self, index, op):
         """The caller drives a second live sampler (the decoy built on the same supercell object) in between:
@@ -724,6 +770,7 @@ class Run(RunBase):
             # a sampler that cannot be pickled/copied is not a violation of C33/C34: nothing is claimed about it
             self.probes["checkpoint-unsupported"] += 1
             return "unsupported"
+        self.released = (self.released + [self.occ])[-3:]      # the dead process's array
         self.mc, self.occ = dup, dup.occ
         self.faults["restored-from-checkpoint"] += 1
         return "restored"
@@ -874,6 +921,7 @@ class Run(RunBase):
         self.jit_other_snap = self.jit_snapshot(self.jit_other)
         a = [int(x) for x in self.jit.occ]
         arr = np.array(a, dtype=int)
+        self.released = (self.released + [self.occ])[-3:]
         self.mc.start(arr)
         self.occ, self.mocc = arr, a
         self.faults["jit-switched-to-copy"] += 1
@@ -966,6 +1014,44 @@ class Run(RunBase):
         if self.jit_snapshot(jit) != self.jit_snapshot(step):
             self.fail("mcmoves-vs-stepwise", "batch and move-by-move application disagree in internal state")
         return "mc{}:{}".format(L, nacc)
+
+    def op_longbatch(self, index, op):
+        """A long batch of moves that are all rejected (kTlogu = -1e300): tens of thousands of trial evaluations on
+        one compiled sampler object, with lengths around 2^15 and 2^16 -- the generic boundary of any narrow
+        counter. Nothing may change, and the trial values afterwards must still be the reference's."""
+        if self.jit is None:
+            return "skip"
+        # on the live compiled sampler, or on a copy made for the purpose (a new object whose evaluation count is
+        # known to start at zero, so that the queries below straddle the boundary exactly)
+        jit = self.jit.copy() if op.get("fresh") else self.jit
+        Nocc, Nun = int(jit.Nocc), int(jit.Nunocc)
+        if Nocc == 0 or Nun == 0:
+            return "skip(no moves possible)"
+        L = int(op["L"])
+        g = np.random.Generator(np.random.PCG64(int(op.get("seed", 0))))
+        if op.get("const"):
+            # the same move over and over (a frozen configuration at low temperature): only the interactions of
+            # two sites are ever touched
+            oc = np.full(L, int(g.integers(0, Nun)), dtype=np.int64)
+            uc = np.full(L, int(g.integers(0, Nocc)), dtype=np.int64)
+        else:
+            oc = g.integers(0, Nun, size=L, dtype=np.int64)
+            uc = g.integers(0, Nocc, size=L, dtype=np.int64)
+        before = self.jit_snapshot(jit)
+        jit.MCmoves(oc, uc, np.full(L, -1e300))
+        self.checks += 1
+        if self.jit_snapshot(jit) != before:
+            self.fail("mcmoves-vs-reference", "a batch of {} moves that must all be rejected changed the compiled sampler".format(L))
+        self.faults["long-rejected-batch"] += 1
+        occd = [i for i, c in enumerate(self.mocc) if c == 1]
+        unoc = [i for i, c in enumerate(self.mocc) if c == 0]
+        rnd = random.Random(int(op.get("seed", 0)) + 1)
+        for _ in range(10):
+            o, u = rnd.choice(unoc), rnd.choice(occd)
+            a, b = self.mc.deltaE_trial((o,), (u,)), jit.deltaE_trial(o, u)
+            if not self.W.close(a, b):
+                self.fail("trial", "after {} trial evaluations: deltaE_trial({},{}) reference {!r} compiled {!r}".format(L, o, u, a, b))
+        return "long{}".format(L)
 
     def check_jit(self, index, where):
         if self.prop != "C35" or self.jit is None or not self.started or self.needs_start:
@@ -1074,6 +1160,7 @@ class Engine(object):
                  "vseed": rng.randrange(1 << 30), "sseed": rng.randrange(1 << 30)}
             w["shared_sup"] = rng.choice((False, False, False, False, "values", "jumpnet"))
             w["quiet"] = rng.choice((0, 0, 0.5, 0.9))
+            w["merge"] = rng.random() < 0.25
             w["class"] = "{}/{}/c{}o{}{}{}{}".format(c, s, cutoff, order, "/vac" if vac else "",
                                                      "/jn" if jumps else "", "/ts" if w["ts"] else "")
             return w
